@@ -79,6 +79,16 @@ def generate(run_seed, tier):
     mcfg['opac']['logmag'] = c.choice([[-24, -20], [-26, -22], [-22, -17]])
     for m in mcfg['molecules']:
         m['mix'] = 10 ** c.uniform(-8, -4)
+        r = c.random()
+        if r < 0.25:
+            # abundance varying with altitude (a wrong layer index shows)
+            m['gas'] = {'kind': 'twopoint', 'surface': 10 ** c.uniform(-6, -4),
+                        'top': 10 ** c.uniform(-9, -6)}
+            m['mix'] = max(m['gas']['surface'], m['gas']['top'])
+        elif r < 0.4:
+            m['gas'] = {'kind': 'array', 'values': [
+                10 ** c.uniform(-8, -4) for _ in range(c.randint(2, 6))]}
+            m['mix'] = max(m['gas']['values'])
     if 'HydrogenIon' in contribs:
         mcfg['molecules'] += [{'name': 'H', 'mix': 10 ** c.uniform(-5, -3)},
                               {'name': 'e-', 'mix': 10 ** c.uniform(-8, -6)}]
